@@ -165,6 +165,11 @@ def acceptor_lemma(sym, tier):
         out = _out(A.handle_event(msg))
         if before_p is not None and (A._promised_ballot is None or A._promised_ballot < before_p):
             r.bad("acceptor_promise_never_decreases", [before_p.number, before_p.node_id])
+        # the invariant assumed of the pre-state is inductive: an acceptor has promised at least what it accepted
+        if A._accepted_ballot is not None and (A._promised_ballot is None or A._promised_ballot < A._accepted_ballot):
+            r.bad("acceptor_has_promised_at_least_what_it_accepted", {"step": k, "accept": is_accept, "ballot": [mb.number, mb.node_id]})
+        if before_a is not None and (A._accepted_ballot is None or A._accepted_ballot < before_a):
+            r.bad("accepted_ballot_never_decreases", {"step": k, "before": [before_a.number, before_a.node_id]})
         ok_to_take = before_p is None or not (mb < before_p)
         kinds = [e.event_type for e in out]
         if is_accept:
